@@ -226,7 +226,8 @@ def _oracle(sc, out, n, items, excs, values, executed, name):
                     ok = ok and isinstance(r, tuple) and len(r) == 3 and r[1] is excs[i]
                 else:
                     ok = ok and r == values[i]
-        if ok:
+        eff_pool = sc['pool'] if sc['api'].startswith('pool.') else min(n, 20)
+        if ok and eff_pool < 2:
             return None, 1
         return {'sig': 'C15:swallowed:%s' % name,
                 'msg': 'items %r fail but nothing was raised and the results are %r' % (failing, [_short(r) for r in got])}, 0
